@@ -219,7 +219,7 @@ package sync
 // (otherwise the whole range is fetched again, at most MaxRetryCountBlockHashMismatch times).
 // ctxEnded: a select case on ctx.Done() fired (set by the engine); hdrCancelled: the last header fetch was abandoned
 // because the context ended
-//@ ghost var ctxEnded bool
+// (ctxEnded is declared in /verif/contracts/stdlib.contracts: every package may use it)
 //@ ghost var hdrCancelled bool
 // fetching the header of one block (C05): the node is asked for exactly that number until it answers; the header handed
 // back is the node's answer (A8: it is the header of the number asked for); the fetch is abandoned - which the callers
